@@ -17,10 +17,18 @@ EventOK(e) ==
      \/ o.k = "err" /\ e.out.k = "err"
      \/ o.k = "val" /\ e.out.k = "val" /\ e.out.v = o.v
 Evaluated == l <= Len(Rec) /\ Rec[l].ev = "eval" /\ EventOK(Rec[l]) /\ l' = l + 1
-TraceNext == Evaluated
+\* now(): not a function of the row (C18: "only now() may differ between runs") -- its value lies between the instants the driver read just before and just
+\* after the evaluation (under TZ=UTC), and expressions over it see that instant: it is later than 2020, its year is the clock's year
+Clocked == /\ l <= Len(Rec) /\ Rec[l].ev = "now" /\ l' = l + 1
+           /\ LET e == Rec[l] IN
+                /\ e.out.k = "val" /\ Len(e.out.vs) = 3
+                /\ e.out.vs[1].t = "ts" /\ Cmp(e.lo, e.out.vs[1]) <= 0 /\ Cmp(e.out.vs[1], e.hi) <= 0
+                /\ e.out.vs[2] = BoolV(TRUE)
+                /\ e.out.vs[3].t = "int" /\ e.out.vs[3].i \in {e.lo.f[1], e.hi.f[1]}
+TraceNext == Evaluated \/ Clocked
 TraceSpec == TraceInit /\ [][TraceNext]_l
 TraceUnfinished == l <= Len(Rec)
 TrackProgress == TLCSet(1, IF TLCGet(1) < l THEN l ELSE TLCGet(1))
 TraceRejectedAt == PrintT(<<"TRACE-REJECTED", "first unmatched event", TLCGet(1),
-                            IF TLCGet(1) <= Len(Rec) THEN <<Rec[TLCGet(1)], "model says", Eval(Rec[TLCGet(1)].e, Rec[TLCGet(1)].env)>> ELSE <<"none">>>>)
+                            IF TLCGet(1) <= Len(Rec) THEN <<Rec[TLCGet(1)], "model says", IF Rec[TLCGet(1)].ev = "eval" THEN Eval(Rec[TLCGet(1)].e, Rec[TLCGet(1)].env) ELSE "a value of now() between lo and hi">> ELSE <<"none">>>>)
 =============================================================================
